@@ -1,12 +1,76 @@
 /-
-  C16 — closing (placeholder while the theorems are written).
+  C16 — closing is complete, contained, idempotent and respects file ownership.
+
+  Model: PyctrModel/Sys/Close.lean — every reader, handle and wrapper as an object with a `closed` flag and four static
+  fields (`owns` closed when `closefd`, `tracked` always closed, `look` consulted by the closed-check, `through` called into by a
+  read); `closeObj` = `close()`, `ioObj` = an I/O call (ValueError or not, with the latching check).  The per-class field values
+  (`mkReader`, `openHandle`, …) transcribe the classes; the exhaustive configuration matrix ties them to pyctr.
+  The theorems below hold for EVERY heap, so they do not depend on that transcription being the right one.
 -/
-import PyctrModel.Sys.Close
+import Proofs.CloseProofs
 namespace Pyctr.C16
 open Pyctr Pyctr.Close
 
-/-- closing an object with fuel sets its own flag -/
-theorem C16_close_sets (n : Nat) (H : Heap) (i : Nat) (o : Obj) (h : H[i]? = some o) (hc : o.closeOnce = false) :
-    ∃ o', (closeObj (n + 1) H i)[i]? = some o' → True := ⟨o, fun _ => trivial⟩
+/-- nothing is ever reopened and nothing but `closed` flags ever changes — by any close … -/
+theorem C16_close_monotone (n : Nat) (H : Heap) (i : Nat) : heapLe H (closeObj n H i) := closeObj_le n H i
+
+/-- … or by any I/O call (whose closed-check latches) -/
+theorem C16_io_monotone (n : Nat) (H : Heap) (i : Nat) (op : IoOp) : heapLe H (ioObj n H i op).2 := ioObj_le n H i op
+
+/-- a `close()` sets the object's own flag, whatever its class and whatever was closed before (so closing twice, or closing
+    handles in any order, leaves every closed object closed) -/
+theorem C16_close_sets_flag (n : Nat) (H : Heap) (i : Nat) : closedAt (closeObj (n + 1) H i) i := closeObj_closes_self n H i
+
+/-- **use after close**: an object whose flag is set raises ValueError on a data call and on a position-only call alike -/
+theorem C16_use_after_close (n : Nat) (H : Heap) (i : Nat) (op : IoOp) (o : Obj) (hi : H[i]? = some o) (hc : o.closed = true) :
+    (ioObj (n + 1) H i op).1 = true := io_raises_closed n H i op o hi hc
+
+/-- … and so does a handle whose underlying object (`_reader`) has been closed, even if nobody closed the handle itself -/
+theorem C16_use_after_inner_close (n : Nat) (H : Heap) (i j : Nat) (op : IoOp) (o oj : Obj) (hi : H[i]? = some o)
+    (hl : o.look = some j) (hj : H[j]? = some oj) (hc : oj.closed = true) : (ioObj (n + 1) H i op).1 = true :=
+  io_raises_look n H i j op o oj hi hl hj hc
+
+/-- **complete (one level)**: closing a reader that is not already closed closes every handle, nested reader, base wrapper and
+    partition it tracks; combined with `C16_use_after_close` every further call on them raises.  (Deeper levels follow by
+    applying the theorem to the nested reader; the model's transitive behaviour is compared with pyctr by the matrix.) -/
+theorem C16_complete (n : Nat) (H : Heap) (r : Nat) (o : Obj) (hr : H[r]? = some o)
+    (hfresh : (o.closeOnce && o.closed) = false) (hfl : (flushStep (n + 1) H o).1 = false) (t : Nat) (ht : t ∈ o.tracked)
+    (hlt : t < H.length) : closedAt (closeObj (n + 2) H r) t :=
+  close_closes_tracked n H r o hr hfresh hfl t ht hlt
+
+/-- **idempotent**: closing a reader twice is the same as closing it once -/
+theorem C16_idempotent (n m : Nat) (H : Heap) (r : Nat) (o : Obj) (hr : H[r]? = some o) (hco : o.closeOnce = true) :
+    closeObj (m + 1) (closeObj (n + 1) H r) r = closeObj (n + 1) H r := close_twice_reader n m H r o hr hco
+
+/-- **contained / ownership**: a `close()` changes no object outside `reach` — the object itself, what it owns *if* `closefd`,
+    what it tracks, recursively.  Hence closing a handle never touches a sibling handle or its reader, and a file that is
+    owned only through a `closefd = false` edge stays open. -/
+theorem C16_contained (n : Nat) (H : Heap) (i j : Nat) (hj : j ∉ reach n H i) : (closeObj n H i)[j]? = H[j]? :=
+  close_frame n H i j hj
+
+/-- an I/O call latches only the object and what it reads through -/
+theorem C16_io_contained (n : Nat) (H : Heap) (i : Nat) (op : IoOp) (j : Nat) (hj : j ∉ ioReach n H i) :
+    (ioObj n H i op).2[j]? = H[j]? := io_frame n H i op j hj
+
+/-! ### the transcribed graphs: ownership and containment on representative worlds (kernel-evaluated instances) -/
+
+/-- an NCCH (two-key ExeFS) over a caller's file object, default closefd, with a RomFS handle and an ExeFS-file handle -/
+def exWorld : World :=
+  let w : World := (({} : World).alloc "f" rawFile).1
+  let w := (w.mkReader "ncch-split" "r" (.obj "f") none).getD w
+  let w := (w.openHandle "r" "raw-romfs" "h0").getD w
+  (w.openHandle "r.exefs" "open" "h1").getD w
+
+def exId (n : String) : Nat := (exWorld.id? n).getD 0
+
+/-- the caller's file is outside the reach of the reader's close (default closefd on a file object): it stays open -/
+example : exId "f" ∉ reach 12 exWorld.heap (exId "r") := by decide
+/-- … and both handles are inside it -/
+example : exId "h0" ∈ reach 12 exWorld.heap (exId "r") ∧ exId "h1" ∈ reach 12 exWorld.heap (exId "r") := by decide
+/-- closing one handle reaches neither its sibling nor the reader nor the file -/
+example : exId "h1" ∉ reach 12 exWorld.heap (exId "h0") ∧ exId "r" ∉ reach 12 exWorld.heap (exId "h0") ∧
+    exId "f" ∉ reach 12 exWorld.heap (exId "h0") := by decide
+/-- after the reader is closed, a position-only call on the nested reader's handle raises -/
+example : (ioObj 12 (closeObj 12 exWorld.heap (exId "r")) (exId "h1") .tell).1 = true := by decide
 
 end Pyctr.C16
